@@ -1,6 +1,7 @@
 package absint
 
 import (
+	"strconv"
 	"fmt"
 	"math/big"
 	"sort"
@@ -843,6 +844,15 @@ func (t *Term) norm() *Term {
 	out := newTerm()
 	for _, m := range t.mons {
 		ps, extra := groupLimbEqs(m.preds)
+		// thirty-two equalities name[i] = c_i of the bytes of one 32-byte input: the equality of its big-endian value
+		if ps3, extra3 := groupSymByteEqs(ps); extra3 != nil {
+			ps = ps3
+			if extra == nil {
+				extra = extra3
+			} else {
+				extra = extra.Mul(extra3)
+			}
+		}
 		// thirty-two byte equalities of the same pair of 256-bit integers (a byte-wise comparison of serialised values)
 		if ps2, extra2 := groupEqs(ps, IByte, 32, 8); extra2 != nil {
 			ps = ps2
@@ -1373,4 +1383,240 @@ func (t *Term) Syms() map[*IAtom]bool {
 	}
 	walkT(t)
 	return out
+}
+
+
+// groupSymByteEqs: among preds, the tests [name[i] = c_i] for all 32 bytes of one named 32-byte input are replaced
+// by [OS2IP(name) = OS2IP(c)] (big-endian, the reading the drivers use for 32-byte inputs).
+func groupSymByteEqs(preds []*PAtom) (rest []*PAtom, extra *Term) {
+	type ent struct {
+		p    *PAtom
+		atom *IAtom
+		c    *big.Int
+	}
+	fams := map[string]map[int]ent{}
+	for _, p := range preds {
+		if p.Kind != PEQZ || len(p.A.mons) == 0 || len(p.A.mons) > 2 {
+			continue
+		}
+		var at *IAtom
+		c := new(big.Int)
+		coef := new(big.Int)
+		ok := true
+		for _, m := range p.A.mons {
+			if len(m.preds) > 0 {
+				ok = false
+			}
+			if m.atom == nil {
+				c = m.c
+			} else if m.atom.Kind == ISym && at == nil && m.c.CmpAbs(bigOne) == 0 {
+				at, coef = m.atom, m.c
+			} else {
+				ok = false
+			}
+		}
+		if !ok || at == nil || at.Hi == nil || at.Hi.Cmp(big.NewInt(255)) != 0 {
+			continue
+		}
+		name := BaseSym(at).Name
+		lb := strings.LastIndex(name, "[")
+		if lb < 0 || !strings.HasSuffix(name, "]") {
+			continue
+		}
+		idx, err := strconv.Atoi(name[lb+1 : len(name)-1])
+		if err != nil || idx < 0 || idx > 31 {
+			continue
+		}
+		// coef*sym + c = 0  =>  sym = -c/coef
+		val := new(big.Int).Neg(c)
+		if coef.Sign() < 0 {
+			val = new(big.Int).Set(c)
+		}
+		if val.Sign() < 0 || val.Cmp(big.NewInt(255)) > 0 {
+			continue
+		}
+		fam := name[:lb]
+		if fams[fam] == nil {
+			fams[fam] = map[int]ent{}
+		}
+		fams[fam][idx] = ent{p, at, val}
+	}
+	var names []string
+	for n := range fams {
+		names = append(names, n)
+	}
+	sort.Strings(names)
+	for _, n := range names {
+		f := fams[n]
+		if len(f) != 32 {
+			continue
+		}
+		x := TInt(0)
+		k := new(big.Int)
+		drop := map[*PAtom]bool{}
+		for i := 0; i < 32; i++ {
+			e := f[i]
+			w := pow2(8 * (31 - i))
+			x = x.Add(TAtom(e.atom).Scale(w))
+			k.Add(k, new(big.Int).Mul(e.c, w))
+			drop[e.p] = true
+		}
+		for _, p := range preds {
+			if !drop[p] {
+				rest = append(rest, p)
+			}
+		}
+		e := EQZ(x.Sub(TConst(k)))
+		r2, e2 := groupSymByteEqs(rest)
+		if e2 != nil {
+			return r2, e.Mul(e2)
+		}
+		return rest, e
+	}
+	return preds, nil
+}
+
+// LexExpand rewrites, in the 0/1 term t, the comparison [a < b] (and [b < a]) of two 256-bit integers into its
+// limb-wise lexicographic form and the whole-value equality eq (a single predicate atom meaning a = b) into the
+// product of the four limb equalities, so that a limb-by-limb comparison written in the code and the whole-value
+// specification can be compared as Boolean functions of the same eight limb comparisons.
+func LexExpand(t, a, b, eq *Term) *Term {
+	limb := func(x *Term, i int) *Term { return LimbOf(x, i) }
+	lex := func(x, y *Term) *Term {
+		// [x < y] = [x3<y3] + [x3=y3]([x2<y2] + [x2=y2](...))
+		acc := TInt(0)
+		for i := 0; i < 4; i++ {
+			acc = LT(limb(x, i), limb(y, i)).Add(EQ(limb(x, i), limb(y, i)).Mul(acc))
+		}
+		return acc
+	}
+	eqAll := TInt(1)
+	for i := 0; i < 4; i++ {
+		eqAll = eqAll.Mul(EQ(limb(a, i), limb(b, i)))
+	}
+	var eqAtom *PAtom
+	if eq != nil {
+		eqAtom = eq.SinglePred()
+	}
+	out := TInt(0)
+	for _, m := range t.mons {
+		q := TConst(m.c)
+		for _, p := range m.preds {
+			f := TPred(p)
+			switch {
+			case eqAtom != nil && p == eqAtom:
+				f = eqAll
+			case p.Kind == PLT && p.A.Equal(a) && p.B.Equal(b):
+				f = lex(a, b)
+			case p.Kind == PLT && p.A.Equal(b) && p.B.Equal(a):
+				f = lex(b, a)
+			}
+			q = q.Mul(f)
+		}
+		if m.atom != nil {
+			q = q.Mul(TAtom(m.atom))
+		}
+		out = out.Add(q)
+	}
+	return out
+}
+
+// SamePred decides whether two 0/1 terms are the same Boolean function of the comparison atoms they mention
+// (at most 10 atoms; assignments that contradict the relations between comparisons are left out).
+func SamePred(x, y *Term) bool {
+	d := TrichoNorm(x).Sub(TrichoNorm(y))
+	if !d.IsPred() {
+		return false
+	}
+	if len(d.mons) == 0 {
+		return true
+	}
+	if len(d.PredAtoms()) > 10 {
+		return false
+	}
+	lo, hi := d.Bounds()
+	return lo.Sign() == 0 && hi.Sign() == 0
+}
+
+// SameLex decides got = want as Boolean functions of the eight limb comparisons of the 256-bit integers a and b:
+// every predicate atom of either term must be a limb comparison [a_i < b_i], [b_i < a_i], [a_i = b_i], the
+// whole-value equality eq, or the whole-value comparison [a < b] / [b < a]; both terms are evaluated under all
+// consistent outcomes of the limb comparisons.
+func SameLex(got, want, a, b, eq *Term) bool {
+	if !got.IsPred() || !want.IsPred() {
+		return false
+	}
+	type role struct {
+		kind string // "lt", "gt", "eq", "EQ", "LT", "GT"
+		i    int
+	}
+	roles := map[*PAtom]role{}
+	for i := 0; i < 4; i++ {
+		la, lb := LimbOf(a, i), LimbOf(b, i)
+		if p := LT(la, lb).SinglePred(); p != nil {
+			roles[p] = role{"lt", i}
+		}
+		if p := LT(lb, la).SinglePred(); p != nil {
+			roles[p] = role{"gt", i}
+		}
+		if p := EQ(la, lb).SinglePred(); p != nil {
+			roles[p] = role{"eq", i}
+		}
+	}
+	if eq != nil {
+		if p := eq.SinglePred(); p != nil {
+			roles[p] = role{"EQ", 0}
+		}
+	}
+	if p := LT(a, b).SinglePred(); p != nil {
+		roles[p] = role{"LT", 0}
+	}
+	if p := LT(b, a).SinglePred(); p != nil {
+		roles[p] = role{"GT", 0}
+	}
+	atoms := append(got.PredAtoms(), want.PredAtoms()...)
+	for _, p := range atoms {
+		if _, ok := roles[p]; !ok {
+			return false
+		}
+	}
+	// outcome of limb i: 0 less, 1 equal, 2 greater
+	for code := 0; code < 81; code++ {
+		var o [4]int
+		c := code
+		for i := 0; i < 4; i++ {
+			o[i] = c % 3
+			c /= 3
+		}
+		allEq := true
+		lex := 1 // whole outcome, decided by the most significant differing limb
+		for i := 3; i >= 0; i-- {
+			if o[i] != 1 {
+				allEq = false
+				lex = o[i]
+				break
+			}
+		}
+		as := map[*PAtom]bool{}
+		for p, rl := range roles {
+			switch rl.kind {
+			case "lt":
+				as[p] = o[rl.i] == 0
+			case "gt":
+				as[p] = o[rl.i] == 2
+			case "eq":
+				as[p] = o[rl.i] == 1
+			case "EQ":
+				as[p] = allEq
+			case "LT":
+				as[p] = lex == 0
+			case "GT":
+				as[p] = lex == 2
+			}
+		}
+		if got.evalPure(as).Cmp(want.evalPure(as)) != 0 {
+			return false
+		}
+	}
+	return true
 }
